@@ -10,9 +10,12 @@ import (
 	"encoding/json"
 	"flag"
 	"fmt"
+	"github.com/bbva/qed/client"
 	"io/ioutil"
 	"math/bits"
 	"math/rand"
+	"net/http"
+	"net/http/httptest"
 	"os"
 	"path/filepath"
 	"runtime"
@@ -558,6 +561,60 @@ func (a *advCtx) attackIncr(s, e uint64) {
 	}
 }
 
+// rawBodies: the real HTTP client is given arbitrary 200-OK bodies by a (hostile) server for its
+// proof requests; whatever it returns is then verified against authentic snapshots. Nothing may
+// panic or hang, and nothing degenerate may be accepted.
+func (a *advCtx) rawBodies() {
+	r := a.r
+	bodies := []string{"null", "{}", "[]", "true", "0", "\"x\"", "", "{", "{\"Exists\":true}", "{\"Hyper\":null,\"History\":null,\"Exists\":true,\"KeyDigest\":null}",
+		"{\"Start\":0,\"End\":0,\"AuditPath\":null}", "{\"AuditPath\":{\"0|0\":null}}", "nul", "[null]", "{\"Exists\":\"yes\"}"}
+	cur := uint64(len(r.log) - 1)
+	d := r.log[len(r.log)-1]
+	var body string
+	srv := httptest.NewServer(http.HandlerFunc(func(w http.ResponseWriter, req *http.Request) {
+		w.WriteHeader(200)
+		w.Write([]byte(body))
+	}))
+	defer srv.Close()
+	for _, b := range bodies {
+		body = b
+		for _, ep := range []string{"membership", "incremental"} {
+			qc, err := client.NewHTTPClient(client.SetURLs(srv.URL), client.SetReadPreference(client.Any), client.SetMaxRetries(0),
+				client.SetTopologyDiscovery(false), client.SetHealthChecks(false), client.SetAttemptToReviveEndpoints(true),
+				client.SetHasherFunction(symhash.New))
+			if err != nil {
+				continue
+			}
+			stage := "request"
+			o := runGuarded(func() bool {
+				if ep == "membership" {
+					proof, err := qc.MembershipDigest(d, &cur)
+					if err != nil || proof == nil {
+						return false
+					}
+					stage = "verify"
+					snap := &balloon.Snapshot{EventDigest: d, HistoryDigest: r.snaps[cur].s.HistoryDigest, HyperDigest: r.snaps[cur].s.HyperDigest, Version: cur}
+					ok, _ := qc.MembershipVerify(d, proof, snap)
+					return ok
+				}
+				proof, err := qc.Incremental(0, cur)
+				if err != nil || proof == nil {
+					return false
+				}
+				stage = "verify"
+				ok, _ := qc.IncrementalVerify(proof, r.snaps[0].s, r.snaps[cur].s)
+				return ok && cur > 0
+			})
+			ev := trace.Ev{"a": "advraw", "endpoint": ep, "body": truncate(b, 60), "res": o.Res, "stage": stage}
+			if o.Site != "" {
+				ev["site"], ev["msg"] = o.Site, truncate(o.Msg, 160)
+			}
+			r.tw.Emit(ev)
+			r.queries++
+		}
+	}
+}
+
 func adversaryDriver(args []string) error {
 	fs := flag.NewFlagSet("adversary", flag.ExitOnError)
 	out, seed, tier := commonFlags(fs)
@@ -650,6 +707,9 @@ func adversaryDriver(args []string) error {
 				e := uint64(rng.Intn(len(r.log)))
 				s := uint64(rng.Intn(int(e) + 1))
 				a.attackIncr(s, e)
+			}
+			if stats["runs"] == 0 {
+				a.rawBodies()
 			}
 			nq += r.queries
 			stats["runs"]++
